@@ -438,7 +438,27 @@ impl<'a> Tr<'a> {
             }
             Ty::Option(e) => format!("(Option {})", self.lean_ty(e)?),
             Ty::Result(a, b) => format!("(Except {} {})", self.lean_ty(b)?, self.lean_ty(a)?),
-            Ty::Adt(n) => self.reg.structs.get(n).or_else(|| self.reg.enums.get(n)).cloned().ok_or_else(|| format!("type `{}` is not a translation target", n))?,
+            Ty::Adt(n) => {
+                let lean = self.reg.structs.get(n).or_else(|| self.reg.enums.get(n)).cloned().ok_or_else(|| format!("type `{}` is not a translation target", n))?;
+                // generic structs/enums: instantiated with the parameters of the same name in scope
+                let gens: Option<&syn::Generics> = self.idx.find_struct(n, &self.cur.module).map(|s| &s.generics).or_else(|| self.idx.find_enum(n, &self.cur.module).map(|e| &e.generics));
+                let mut args = String::new();
+                if let Some(g) = gens {
+                    for p in g.type_params() {
+                        args.push(' ');
+                        args.push_str(&p.ident.to_string());
+                    }
+                    for p in g.const_params() {
+                        args.push(' ');
+                        args.push_str(&lean_ident(&p.ident.to_string()));
+                    }
+                }
+                if args.is_empty() {
+                    lean
+                } else {
+                    format!("({}{})", lean, args)
+                }
+            }
             Ty::Param(n) => n.clone(),
             Ty::Ordering => "Ordering".into(),
             Ty::Ptr(_) => return Err("raw pointer type outside a recognised from_raw_parts pattern".into()),
